@@ -166,6 +166,10 @@ func c10Case(c *Ctx) {
 		c10Shipped(c, c.Case-cases)
 		return
 	}
+	if c.Case%5 == 3 { // the diagnostics channel is broken (closed descriptor, full device): what is kept must not depend on it
+		defer brokenStderr()()
+		c.Count("cases_with_unwritable_standard_error", 1)
+	}
 	if c.Case == 0 {
 		for _, empty := range [][]string{nil, {}} {
 			wl, err := spg.NewWordList(empty)
